@@ -1180,7 +1180,29 @@ where
                 server.address()
             );
 
-            server.sync_parameters(&self.server_parameters).await?;
+            // The server may be hung. This round trip is issued by the pooler itself, like the
+            // pre-use health check, and gets the same time; without a limit a hung server
+            // would block the client here for ever.
+            match tokio::time::timeout(
+                tokio::time::Duration::from_millis(pool.settings.healthcheck_timeout),
+                server.sync_parameters(&self.server_parameters),
+            )
+            .await
+            {
+                Ok(result) => result?,
+                Err(_) => {
+                    server.mark_bad(
+                        format!(
+                            "Timed out applying the client's parameters on {:?} with user {}",
+                            address, pool.settings.user.username
+                        )
+                        .as_str(),
+                    );
+                    pool.ban(&address, BanReason::FailedHealthCheck, Some(&self.stats));
+                    error_response_terminal(&mut self.write, "pool statement timeout").await?;
+                    return Err(Error::StatementTimeout);
+                }
+            }
 
             let mut initial_message = Some(message);
 
